@@ -197,6 +197,10 @@ func init() {
 		return []Val{Ite(Ge(s, IntT(0)), P.mk("pinf", "", SF64, nil, nil), P.mk("ninf", "", SF64, nil, nil))}
 	})
 	reg("math.Sqrt", "fp.sqrt", func(ex *Exec, a []Val, st *State, _ *types.Signature) []Val { return []Val{FOp("fp.sqrt", tm(a[0]))} })
+	reg("math.Copysign", "IEEE copySign: |f| with the sign bit of sign", func(ex *Exec, a []Val, st *State, _ *types.Signature) []Val {
+		abs := FOp("fp.abs", tm(a[0]))
+		return []Val{Ite(FOp("fp.isNegative", tm(a[1])), FOp("fp.neg", abs), abs)}
+	})
 	reg("math.Abs", "fp.abs", func(ex *Exec, a []Val, st *State, _ *types.Signature) []Val { return []Val{FOp("fp.abs", tm(a[0]))} })
 	reg("math.Floor", "roundToIntegral RTN", func(ex *Exec, a []Val, st *State, _ *types.Signature) []Val {
 		return []Val{P.mk("fp.roundToIntegral", "RTN", SF64, []*Term{tm(a[0])}, nil)}
@@ -234,12 +238,12 @@ func init() {
 	reg("errors.New", "returns a non-nil error", errNew("new"))
 	reg("fmt.Errorf", "returns a non-nil error", errNew("errorf"))
 	wrap := func(ex *Exec, a []Val, st *State, _ *types.Signature) []Val {
+		// go-faster/errors (unlike pkg/errors) wraps unconditionally: the result is never nil
 		e := a[0].(*Agg)
-		isNil := Eq(tm(e.F[0]), IntT(0))
-		return []Val{iteVal(isNil, nilIface(), ex.nonNilErr("wrap", tm(e.F[0]), tm(e.F[1])))}
+		return []Val{ex.nonNilErr("wrap", tm(e.F[0]), tm(e.F[1]))}
 	}
-	reg("github.com/go-faster/errors.Wrap", "nil iff the wrapped error is nil", wrap)
-	reg("github.com/go-faster/errors.Wrapf", "nil iff the wrapped error is nil", wrap)
+	reg("github.com/go-faster/errors.Wrap", "returns a non-nil error (also when the wrapped error is nil)", wrap)
+	reg("github.com/go-faster/errors.Wrapf", "returns a non-nil error (also when the wrapped error is nil)", wrap)
 	reg("fmt.Sprintf", "returns an unspecified string", func(ex *Exec, a []Val, st *State, _ *types.Signature) []Val {
 		return []Val{Fresh("sprintf", SStr)}
 	})
@@ -257,6 +261,11 @@ func init() {
 		s := tm(a[0])
 		ok := UF("strconv.parseFloat.ok", SBool, s)
 		return []Val{UF("strconv.parseFloat.v", SF64, s), iteVal(ok, nilIface(), ex.nonNilErr("parsefloat", s))}
+	})
+	reg("strconv.Atoi", "(value, err) are uninterpreted functions of the text", func(ex *Exec, a []Val, st *State, _ *types.Signature) []Val {
+		s := tm(a[0])
+		ok := UF("strconv.atoi.ok", SBool, s)
+		return []Val{UF("strconv.atoi.v", SInt, s), iteVal(ok, nilIface(), ex.nonNilErr("atoi", s))}
 	})
 	reg("strconv.ParseInt", "(value, err) are uninterpreted functions of the text", func(ex *Exec, a []Val, st *State, _ *types.Signature) []Val {
 		s := tm(a[0])
